@@ -1119,15 +1119,22 @@ func func_Select(rtParams FunctionParameterTypes, val any) (any, error) {
 			}
 		}
 	case reflect.Map:
-		// Iterate over map values.
-		orderedMapValues := v.MapKeys()
-		// Sort the keys to ensure deterministic output.
-		sort.Slice(orderedMapValues, func(i, j int) bool {
-			return fmt.Sprint(orderedMapValues[i].Interface()) < fmt.Sprint(orderedMapValues[j].Interface())
+		// Iterate over map values, sorted by their keys to ensure deterministic output. The values are
+		// taken from the iterator: a key such as NaN cannot be looked up again with MapIndex.
+		type mapEntry struct {
+			key string
+			val reflect.Value
+		}
+		orderedMapValues := make([]mapEntry, 0, v.Len())
+		for iter := v.MapRange(); iter.Next(); {
+			orderedMapValues = append(orderedMapValues, mapEntry{fmt.Sprint(iter.Key().Interface()), iter.Value()})
+		}
+		sort.SliceStable(orderedMapValues, func(i, j int) bool {
+			return orderedMapValues[i].key < orderedMapValues[j].key
 		})
 
-		for _, key := range orderedMapValues {
-			elem := v.MapIndex(key).Interface()
+		for _, entry := range orderedMapValues {
+			elem := entry.val.Interface()
 			res, err := op.Do(elem, elem)
 			if err != nil {
 				return nil, fmt.Errorf("func %s: error selecting field: %w", FT_Select, err)
@@ -2154,13 +2161,11 @@ func getMapValues(input any) ([]any, error) {
 		return nil, fmt.Errorf("input is not a map")
 	}
 
-	// Create a new map for the result.
-	result := make([]any, v.Len())
-
-	// Iterate over all keys.
-	for i, key := range v.MapKeys() {
-		// Use the string key and the corresponding value.
-		result[i] = normalizeValue(v.MapIndex(key).Interface())
+	// Collect the values. They are taken from the iterator: a key such as NaN cannot be looked up
+	// again with MapIndex.
+	result := make([]any, 0, v.Len())
+	for iter := v.MapRange(); iter.Next(); {
+		result = append(result, normalizeValue(iter.Value().Interface()))
 	}
 	return result, nil
 }
